@@ -95,13 +95,18 @@ def showErr : Err → String
 def enum (l : List String) (start : Nat) : List (String × Nat) :=
   (l.zipIdx start)
 
-def cg (scripted : Bool) (pre gen post extra : List String) (mode : String) : String :=
+def cg (scripted : Bool) (pre gen post extra : List String) (mode : String) (swap : List String := []) : String :=
   let o0 : Obj := ⟨[("attr", 0)], 0, none⟩
   let h0 : Heap := [(enum pre 100).map fun p => (p.1, Sub.plain p.2)]
   -- one `_codegen_register` call per generated name (a second call with the same name is how a duplicate arises)
   let (h1, o1) := (enum gen 200).foldl (fun (acc : Heap × Obj) p => register acc.1 acc.2 scripted [p]) (h0, o0)
   let h2 := (enum post 300).foldl (fun hh p => addChild hh o1 p.1 (.plain p.2)) h1
   let o2 : Obj := if extra.isEmpty then o1 else { o1 with codegen := some ((o1.codegen.getD []) ++ extra) }
+  -- what `e3nn.util.jit.compile(m)` does in place to generated fx children: `setattr(m, name, torch.jit.script(child))`
+  let h2 := swap.foldl (fun hh nm =>
+    match ODict.getKey? ((hh[o2.modules]?).getD []) nm with
+    | some (.fx p) => addChild hh o2 nm (.ts p)
+    | _ => hh) h2
   let orig := (h2[o2.modules]?).getD []
   let r := if mode == "direct" then roundtripDirect h2 o2 else roundtrip h2 o2
   match r with
@@ -126,6 +131,9 @@ partial def loop (h : IO.FS.Stream) (out : IO.FS.Stream) (var : OptDefaults.Vari
       loop h out (if v == "tryFinally" then .tryFinally else .asWritten) OptDefaults.init
   | ["cg", s, pre, gen, post, extra, mode] =>
       out.putStrLn (cg (parseBit s) (names pre) (names gen) (names post) (names extra) mode)
+      loop h out var w
+  | ["cg", s, pre, gen, post, extra, mode, swap] =>
+      out.putStrLn (cg (parseBit s) (names pre) (names gen) (names post) (names extra) mode (names swap))
       loop h out var w
   | op :: args =>
       match parseOps op args with
